@@ -167,12 +167,12 @@ extern char *prog_code;
 extern char *prog_code_max;
 extern ident_hash_elem_t **locals;
 extern lpc_type_t *type_of_locals;
-extern char *runtime_locals;
+extern short *runtime_locals;
 extern int current_number_of_locals;
 extern int max_num_locals;
 extern lpc_type_t *type_of_locals_ptr;
 extern ident_hash_elem_t **locals_ptr;
-extern char *runtime_locals_ptr;
+extern short *runtime_locals_ptr;
 
 extern size_t type_of_locals_size;
 extern size_t locals_size;
